@@ -41,8 +41,9 @@ def vk_unit(n):
 
 PROPS = {
     "C01": {
-        "v_units": ["capacity.py"],
-        "r": [("prover", lambda n: n.startswith("prover.") or n.startswith("lemma.")), ("verifier", lambda n: n.startswith("verifier.") or n.startswith("proof.verify"))],
+        "v_units": ["capacity.py", "compress.py"],
+        "r": [("compress", lambda n: "unpack_array_len" in n),
+              ("prover", lambda n: n.startswith("prover.") or n.startswith("lemma.") or n.startswith("quotient.")), ("verifier", lambda n: n.startswith("verifier.") or n.startswith("proof.verify"))],
         "claim": "function-level necessary conditions of completeness only: (a) prover/verifier agreement - the Fiat-Shamir schedule "
                  "the real prove_inner performs (trace-only symbolic run) is the protocol schedule, and is event-for-event the one "
                  "Proof::verify rebuilds from the returned proof (contract-level lemma); the two opening lists are the verifier's "
@@ -285,6 +286,7 @@ PROPS = {
     },
     "C17": {
         "v_units": ["decoders.py", "compress.py"],
+        "v_units2": ["capacity.py"],      # separate overlay (CommitKey is transparent there, external in decoders.py)
         "r": [("kzg", lambda n: "from_raw_var_bytes" in n), ("verifier", lambda n: n == "verifier.new"), ("compress", None)],
         "claim": "totality of the length-field / section parsing for ALL byte strings of ANY length (no bound): Verifier::try_from_bytes and "
                  "Prover::try_from_bytes never index out of bounds and never overflow (48-byte header, checked sums, required_len guard before "
@@ -399,6 +401,8 @@ PROPS = {
 def run(pid, cfg, res, tier, seed):
     if cfg.get("v_units"):
         runner.run_v(res, cfg["v_units"])
+    if cfg.get("v_units2"):
+        runner.run_v(res, cfg["v_units2"])
     for (mod, sel) in cfg.get("r", []):
         runner.run_r(res, [mod], select=sel, seed=seed)
 
